@@ -105,7 +105,7 @@ class SBool:
         return self
 
     def __repr__(self):
-        return 'SBool(%s)' % str(self.e)[:80]
+        return 'SBool(..)'
 
     # arithmetic on a symbolic bool behaves like on 0/1
     def __add__(self, o): return bool_to_int(self) + o
@@ -256,7 +256,7 @@ class SInt:
         return z3.SignExt(w - sw, self.bv)
 
     def __repr__(self):
-        return 'SInt[%d..%d](%s)' % (self.lo, self.hi, str(self.bv)[:60].replace('\n', ' '))
+        return 'SInt[%d..%d]' % (self.lo, self.hi) if self.hi < 1 << 70 else 'SInt[%d bits]' % self.w
 
     def __deepcopy__(self, memo):
         return self
@@ -704,6 +704,18 @@ def refine(v, lo, hi):
     return None
 
 
+def concretize(v, limit=600):
+    """fork the path over the possible values of a symbolic integer with a small static range (sizes, shift counts)"""
+    if not _isinstance(v, SInt):
+        return int(v)
+    if v.hi - v.lo > limit:
+        raise OutOfModel('symbolic integer with a large range used where a concrete value is required')
+    for c in range(v.lo, v.hi):
+        if bool(icmp(v, c, '==')):
+            return c
+    return v.hi
+
+
 def _coerce_int_operand(b):
     """operand kinds accepted by SInt operators; returns ('i', v) | ('f', v) | None"""
     if _isinstance(b, (SInt, SBool)) or (_isinstance(b, int)):
@@ -780,7 +792,7 @@ def _install_int_ops():
 
     def lshift(a, n):
         if _isinstance(n, SInt):
-            raise OutOfModel('symbolic shift count')
+            n = concretize(n)
         if not _isinstance(n, int):
             return NotImplemented
         if n < 0:
@@ -789,7 +801,7 @@ def _install_int_ops():
 
     def rshift(a, n):
         if _isinstance(n, SInt):
-            raise OutOfModel('symbolic shift count')
+            n = concretize(n)
         if not _isinstance(n, int):
             return NotImplemented
         if n < 0:
@@ -797,8 +809,11 @@ def _install_int_ops():
         return ishr(a, n)
 
     def rlshift(a, n):
-        raise OutOfModel('symbolic shift count')
-    S.__lshift__, S.__rshift__, S.__rlshift__, S.__rrshift__ = lshift, rshift, rlshift, rlshift
+        return n << concretize(a)
+
+    def rrshift(a, n):
+        return n >> concretize(a)
+    S.__lshift__, S.__rshift__, S.__rlshift__, S.__rrshift__ = lshift, rshift, rlshift, rrshift
 
     def pow_(a, n, m=None):
         if m is not None:
@@ -809,7 +824,7 @@ def _install_int_ops():
     S.__pow__ = pow_
 
     def rpow(a, b):
-        raise OutOfModel('symbolic exponent')
+        return b ** concretize(a)
     S.__rpow__ = rpow
     for name, op in (('__lt__', '<'), ('__le__', '<='), ('__gt__', '>'), ('__ge__', '>='), ('__eq__', '=='), ('__ne__', '!=')):
         def mkc(op):
